@@ -65,7 +65,16 @@ def handle (fields : List String) : Option String :=
           "fail balanced " ++ hexStr (String.intercalate "; " (((txsOf es).filter (fun t => txSum t ≠ 0)).map
             (fun t => JournalPrinter.fmtDate t.date ++ " \"" ++ t.description ++ "\" sums to " ++ Dec.showDec (txSum t))))
         else if !chronological es then "fail chronological -"
-        else if !sameTxs (txsOf es) expected then "fail transactions-equal-valued-transactions -"
+        else if !sameTxs (txsOf es) expected then
+          let showT (t : Transaction) : String := JournalPrinter.fmtDate t.date ++ " \"" ++ t.description ++ "\" " ++
+            String.intercalate ", " (t.postings.map (fun p => p.account.name ++ " " ++ Dec.showDec p.value))
+          let outK := (txsOf es).map txKey
+          let expK := expected.map txKey
+          let missing := expected.filter (fun t => (expK.count (txKey t)) > (outK.count (txKey t)))
+          let extra := (txsOf es).filter (fun t => (outK.count (txKey t)) > (expK.count (txKey t)))
+          "fail transactions-equal-valued-transactions " ++ hexStr ("missing from the output: " ++
+            String.intercalate "; " (missing.map showT) ++ " | not among the valued transactions of the journal: " ++
+            String.intercalate "; " (extra.map showT))
         else if lifecycleOK es then "ok"
         else if lifecycleOKExceptValuation es then "known valuation-account-not-opened"
         else "fail open-before-use " ++ hexStr (String.intercalate "; "
